@@ -41,11 +41,13 @@ RULE = ("states = canonical projections (every instance attribute of every objec
         "a transition is non-trivial when it changes the canonical state; transitions are distinct by construction "
         "(distinct (state, event) pairs)")
 BOUNDS = {
-  "quick": "structure depth 3 (2 initial states, ~450 events/state), registry depth 4 (2 initial states, ~100 events), "
-           "ruby depth 3 (~150 events), ruby-lists depth 1 (all lists <= 4 of distinct elements, 4 initial states), "
-           "style depth 3 (~330 events), style-table depth 1 (36 properties x 48 values x 3 sinks)",
-  "thorough": "structure depth 4, registry depth 5, ruby depth 4, ruby-lists depth 1, style depth 4 (reduced value menu), "
-              "style-table depth 1",
+  "quick": "structure depth 3 (2 initial states, 448 events/state); structure-deep: the seed-selected slice -- upper (body/div1/div2/p1) "
+           "or middle (div1/p1/span1/span2) searched to closure (no new state after level 9-10, bound 12), or lower "
+           "(p1/span1/span2/br1/text1) depth 4; registry depth 4 (2 initial states, 97 events); ruby depth 4 (4 initial states, 134 events); "
+           "ruby-lists depth 1 (every list of <= 4 distinct elements, 2598 events, 4 initial states); style depth 3 (436 events); "
+           "style-table depth 1 (36 properties x 49 values x 3 sinks + region and text targets, 7164 events)",
+  "thorough": "structure depth 4; structure-deep all three slices to closure (bound 12); registry depth 5; ruby depth 5; ruby-lists depth 1; "
+              "style depth 4 (8 values per property instead of 12); style-table depth 1",
 }
 ASSUMPTIONS = [
   "the complete state of the model objects is their instance attributes (unexpected attributes are part of the projection); "
@@ -109,9 +111,11 @@ UNIVERSES = {
 # event menus
 
 
-def menu_structure():
+def menu_structure(subset=None):
+  """every call of the structure universe; with `subset` only calls whose target and arguments lie in the subset
+  (the other elements stay in the world, untouched)"""
   u = UNIVERSES["structure"]
-  els = [e[0] for e in u["elems"]]
+  els = [e[0] for e in u["elems"] if subset is None or e[0] in subset]
   kind = {e[0]: e[1] for e in u["elems"]}
   ev = []
   for p in els:
@@ -136,6 +140,13 @@ def menu_structure():
     for d in ("A", "B", "NONE", "JUNK"):
       ev.append(["set_doc", e, d])
   return ev
+
+
+STRUCTURE_SLICES = [
+  ("upper", ["body", "div1", "div2", "p1"]),
+  ("middle", ["div1", "p1", "span1", "span2"]),
+  ("lower", ["p1", "span1", "span2", "br1", "text1"]),
+]
 
 
 def menu_registry():
@@ -486,31 +497,18 @@ def gates():
   if a["region"]["div1"] is not None or a["doc"]["p1"] is not None or a["kids"]["body"] != []:
     raise HarnessError("reference gate: detach")
   n += 4
-  # the real objects agree with the reference on these well-behaved histories (binds `abstract` and `run_event`)
-  for init, evs in ((["init", "structure", "detached"],
-                     [["push_child", "div1", "div2"], ["push_child", "div1", "p1"], ["push_children", "p1", ["span1", "br1"]],
-                      ["remove", "div2"], ["remove_child", "p1", "br1"], ["set_doc", "div1", "A"], ["remove_children", "div1"]]),
-                    (["init", "registry", "tree"],
-                     [["put_region", "A", "r1"], ["set_region", "p1", "r1"], ["put_region", "A", "r2"], ["set_region", "div1", "r2"],
-                      ["set_body", "A", "NONE"], ["set_body", "A", "body"]]),
-                    (["init", "style", "plain"],
-                     [["set_style", "span1", "Color", "color"], ["add_animation_step", "span1", "Color", "color2"],
-                      ["copy_to", "span1", "p1"], ["set_style", "span1", "Color", "NONE"], ["put_initial_value", "A", "Color", "color"],
-                      ["copy_to", "A", "B"]])):
-    w = build_world(init)
-    a = R.abstract(w, R.snapshot(w))
-    for ev in evs:
-      res, _ = R.run_event(w, ev)
-      if res != "ok":
-        raise HarnessError(f"binding gate: {ev} was rejected ({res})")
-      a = R.ref_apply(a, ev, w)
-      s = R.snapshot(w)
-      got = R.abstract(w, s)
-      if R.abs_diff(a, got):
-        raise HarnessError(f"binding gate: reference and implementation differ after {ev}: {R.abs_diff(a, got)}")
-      if R.invariant(w, s):
-        raise HarnessError(f"binding gate: invariant broken after {ev}: {R.invariant(w, s)}")
-      n += 1
+  # style part of the reference model, expected values written out by hand.  (The gates never judge the
+  # implementation: reference-vs-implementation comparison happens on every transition of the search.)
+  w = build_world(["init", "style", "plain"])
+  a = R.abstract(w, R.snapshot(w))
+  for ev in (["set_style", "span1", "Color", "color"], ["add_animation_step", "span1", "Color", "color2"], ["copy_to", "span1", "p1"],
+             ["set_style", "span1", "Color", "NONE"], ["put_initial_value", "A", "Color", "color"], ["copy_to", "A", "B"],
+             ["set_style", "text1", "Color", "NONE"]):
+    a = R.ref_apply(a, ev, w)
+  if a["styles"]["span1"] != {} or a["styles"]["p1"] != {"Color": "color"} or a["sets"]["p1"] != (("Color", None, None, "color2"),) or \
+     a["attrs"]["p1"]["id"] != "s1" or a["attrs"]["p1"]["begin"] != 1 or a["init"]["B"] != {"Color": "color"} or a["styles"]["text1"] != {}:
+    raise HarnessError("reference gate: styles")
+  n += 7
   return {"hand_examples": n}
 
 
@@ -522,10 +520,18 @@ def plan(tier, seed):
   fams = [
     family("structure", "structure", menu_structure(), 4 if thorough else 3,
            "push_child/push_children/remove/remove_child/remove_children/set_doc over body, 2 div, p, 2 span, br, text and two documents"),
+  ]
+  # deeper search of a sub-universe of the structure universe: VERIF_SEED selects which slice the quick tier
+  # searches (exhaustively); the thorough tier takes all slices
+  for i, (sname, subset) in enumerate(STRUCTURE_SLICES):
+    if thorough or i == seed % len(STRUCTURE_SLICES):
+      fams.append(family(f"structure-deep[{sname}]", "structure", menu_structure(subset), 4 if (sname == "lower" and not thorough) else 12,
+                         f"all calls among {'/'.join(subset)} only, searched until no new state appears (depth bound 12 not reached)" if (thorough or sname != "lower") else f"all calls among {'/'.join(subset)} only"))
+  fams += [
     family("registry", "registry", menu_registry(), 5 if thorough else 4,
            "put_region/remove_region/set_region/set_body/set_doc/push_child/remove with two regions sharing an id, a region of "
            "the other document with the same id, two documents"),
-    family("ruby", "ruby", menu_ruby(), 4 if thorough else 3,
+    family("ruby", "ruby", menu_ruby(), 5 if thorough else 4,
            "Ruby/Rb/Rt/Rp/Rbc/Rtc push_children patterns, push_child, remove*, with an Rt of another document"),
     family("ruby-lists", "ruby", menu_ruby_lists(), 1, "every list of <= 4 distinct elements to Ruby.push_children and Rtc.push_children"),
     family("style", "style", menu_style(STYLE_VALUES_SMALL if thorough else STYLE_VALUES), 4 if thorough else 3,
